@@ -113,6 +113,9 @@ def shard_words(cfgname, kind, seed, count, hooked=False):
     return acc
 
 
+INJECT = ('take_physical_irq_exception', 'take_physical_fiq_exception', 'take_reset', 'send_event_local', 'take_physical_fiq_exception', 'take_physical_irq_exception')
+
+
 def shard_programs(cfgname, seed, count):
     """multi-instruction programs of 2..20 steps continuing after exceptions (vectors hold random words too)"""
     acc = Acc()
@@ -128,7 +131,10 @@ def shard_programs(cfgname, seed, count):
             code = b''.join(e1.enc_arm(rng.choice(corpus_a) if rng.random() < 0.6 else rng.getrandbits(32)) for _ in range(24))
         case = gen.step_case(rng, cfgname, thumb, code, steps=n, code_base=0x8000)
         case['poke'].append([0, bytes(rng.getrandbits(8) for _ in range(0x40)).hex()])
-        check_case(acc, case, 'program', ('prog', cfgname, code, n, case['state']['cpsr']))
+        if rng.random() < 0.5:
+            # interrupts, resets and events arriving between instructions
+            case['inject'] = {str(rng.randrange(0, n)): rng.choice(INJECT) for _ in range(rng.randrange(1, 4))}
+        check_case(acc, case, 'program', ('prog', cfgname, code, n, case['state']['cpsr'], tuple(sorted((case.get('inject') or {}).items()))))
     return acc
 
 
@@ -160,7 +166,7 @@ ALL_CFG = list(gen.CONFIGS)
 def run(ctx):
     ctx.rule = ('emulate_cycle() on: every 16-bit Thumb halfword (32-bit starters paired with a generated second halfword) in each IT '
                 'position {outside, first, middle, last}; one witness + solver-generated members for every joint decoder region of the 32-bit Thumb '
-                'space (and of the ARM space in the thorough tier); random / test-suite-derived ARM and 32-bit Thumb words; random 2-20 step programs; '
+                'space (and of the ARM space in the thorough tier); random / test-suite-derived ARM and 32-bit Thumb words; random 2-20 step programs, half of them with IRQ / FIQ / reset / event injections between steps; '
                 'each in a generated valid state (every mode, MPU/MMU on and off, registers pointing into / next to / away from memory, '
                 'code at 0, mid-space, high vectors and the last bytes below 2^32) on configurations ' + ', '.join(ALL_CFG) + '. '
                 'Oracle: validity predicate - the call returns (completed or architectural exception taken) or raises NotImplementedError '
